@@ -189,7 +189,13 @@ pub fn install_panic_hook() {
             .location()
             .map(|l| format!("{}:{}", strip_path(l.file()), l.line()))
             .unwrap_or_default();
-        LAST_PANIC.with(|p| *p.borrow_mut() = Some(format!("panic at {loc}: {msg}")));
+        // keep the FIRST panic of a case (later ones are usually propagation: "one of the tasks panicked")
+        LAST_PANIC.with(|p| {
+            let mut p = p.borrow_mut();
+            if p.is_none() {
+                *p = Some(format!("panic at {loc}: {msg}"));
+            }
+        });
         if !QUIET.with(|q| *q.borrow()) {
             default(info);
         }
@@ -208,6 +214,7 @@ pub fn take_last_panic() -> Option<String> {
 /// Runs `f`, turning a panic into `Err("panic at file:line: msg")`.
 pub fn guard<T>(f: impl FnOnce() -> Result<T, String>) -> Result<T, String> {
     QUIET.with(|q| *q.borrow_mut() = true);
+    let _ = take_last_panic();
     let r = catch_unwind(AssertUnwindSafe(f));
     QUIET.with(|q| *q.borrow_mut() = false);
     match r {
